@@ -35,6 +35,7 @@ def plan(tier, seed):
     shards += [("invalid", wi, wc) for wi in range(3) for wc in range(len(WC))]
     nd = 16 if tier == "quick" else 64
     shards += [("detector", c, nd, tier) for c in range(nd)]
+    shards.append(("callers", tier, seed % 4))
     k = seed % len(shards)
     return shards[k:] + shards[:k]
 
@@ -228,11 +229,23 @@ def _run_detector(desc):
     return sh
 
 
+def _run_callers(desc):
+    """the C route of the laws (compute_geometry / compute_gv) when two python threads are inside the kernels at once with different
+    wedge / chi / omega sign: explored with the two-callers mode of the vrt runtime (shared with C01)"""
+    from vt.props import c01
+    return c01._run_callers(("callers", desc[1], desc[2]))
+
+
 def run_shard(desc):
+    if desc[0] == "callers":
+        return _run_callers(desc)
     return {"laws": _run_laws, "invalid": _run_invalid, "detector": _run_detector}[desc[0]](desc)
 
 
 def replay(case):
+    if case["kind"] == "callers":
+        r = _run_callers(("callers", "thorough", case["mag"]))
+        return (not r.violations), {"violations": r.violations[:3]}
     if case["kind"] in ("laws", "invalid"):
         wi = WVLN.index(case["wavelength"]); wci = WC.index((case["wedge"], case["chi"]))
         r = run_shard((case["kind"], wi, wci))
